@@ -679,6 +679,14 @@ fn gen_files(thorough: bool, rng: &mut Rng, out: &mut Out) {
             let lic = *rng.pick(&INLINE_LIC);
             file_lics.push(lic);
             let mut b = files_para(&pats, layout, lic, id);
+            // the folded layout: `License:` alone on its line, the name on a continuation line
+            // (also `Copyright:` and, through files_field, `Files:`) — after seeded change C17-r7m1
+            if rng.chance(15) {
+                b = b.replace("License: ", "License:\n ");
+            }
+            if rng.chance(8) {
+                b = b.replace("Copyright: ", "Copyright:\n  ");
+            }
             match rng.below(40) {
                 0 => b = b.replace("Copyright: ", "Copyrights: "),
                 1 => b = format!("{}Comment: c{}\n", b, id),
